@@ -555,7 +555,7 @@ class Interp(object):
         if isinstance(st, ast.For):
             elems = None
             it = self.subst(st.iter, state) if self.symbolic else st.iter
-            for cand in ([st.iter] if it is st.iter else [st.iter, it]):
+            for cand in ([st.iter] if it is st.iter else [it, st.iter]):
                 for pattern, fn in self.iters:
                     env = pm.match(pattern, cand)
                     if env is not None:
